@@ -160,26 +160,61 @@ example : (fskModeSpec 5 0 Chip.init).shared.rd 0x01 = 0x05 ∧ (fskModeSpec 5 0
     ∧ (fskModeSpec 5 0 Chip.init).fsk.rd 0x35 = 0x1f ∧ Chip.init.isLora = false := by decide +kernel
 
 
+/-- the call switches between the LoRa modem and the FSK/OOK modem -/
+def CrossesModems (h : Handle) (modulation : Nat) : Prop :=
+  (h.activeModem = Gen.SX127x_MODULATION_LORA) ≠ (modulation = Gen.SX127x_MODULATION_LORA)
+/-- the call starts the FSK/OOK receiver (from a mode other than the requested one) -/
+def StartsFskRx (h : Handle) (opmod modulation : Nat) : Prop :=
+  modulation ≠ Gen.SX127x_MODULATION_LORA ∧ (opmod = Gen.SX127x_MODE_RX_CONT ∨ opmod = Gen.SX127x_MODE_RX_SINGLE) ∧ h.opmod ≠ opmod
+
+theorem resetState_idem (h : Handle) : resetState (resetState h) = resetState h := rfl
+theorem resetState_opmod (h : Handle) : (resetState h).opmod = h.opmod := rfl
+
+theorem setActiveModem_reset (opmod modulation : Nat) (h : Handle)
+    (hx : CrossesModems h modulation ∨ StartsFskRx h opmod modulation) :
+    setActiveModem opmod modulation h = { resetState h with activeModem := modulation, opmod := opmod } := by
+  unfold setActiveModem CrossesModems StartsFskRx at *
+  dsimp only
+  split <;> split
+  · rfl
+  · rfl
+  · rfl
+  · rename_i h1 h2; exact absurd hx (fun e => e.elim h1 h2)
+
+theorem setActiveModem_keep (opmod modulation : Nat) (h : Handle)
+    (hx : ¬ (CrossesModems h modulation ∨ StartsFskRx h opmod modulation)) :
+    setActiveModem opmod modulation h = { h with activeModem := modulation, opmod := opmod } := by
+  unfold setActiveModem CrossesModems StartsFskRx at *
+  dsimp only
+  split <;> split
+  · rename_i h1 _; exact absurd (Or.inl h1) hx
+  · rename_i h1 _; exact absurd (Or.inl h1) hx
+  · rename_i _ h2; exact absurd (Or.inr h2) hx
+  · rfl
+
 /-- **C15, what the handle records.** The new mode and modulation; when the call switches between
-    the LoRa modem and the FSK/OOK modem the packet in progress (expected length, bytes sent or
-    received so far, FSK RSSI sample) is forgotten, because it belongs to the modem that is left;
-    otherwise nothing else changes.  Every other field is kept in either case. -/
+    the LoRa modem and the FSK/OOK modem, or starts the FSK/OOK receiver, the packet in progress
+    (expected length, bytes sent or received so far, FSK RSSI sample) is forgotten — it belongs
+    to the modem that is left, or to a transmission or reception that was abandoned; otherwise
+    nothing else changes.  Every other field is kept in either case. -/
 theorem C15_handle_after (opmod modulation : Nat) (h : Handle) :
     let h' := setActiveModem opmod modulation h
     h'.activeModem = modulation ∧ h'.opmod = opmod ∧
-    (((h.activeModem = Gen.SX127x_MODULATION_LORA) ≠ (modulation = Gen.SX127x_MODULATION_LORA)) →
+    ((CrossesModems h modulation ∨ StartsFskRx h opmod modulation) →
         h' = { resetState h with activeModem := modulation, opmod := opmod } ∧ h'.expected = 0 ∧ h'.received = 0) ∧
-    (((h.activeModem = Gen.SX127x_MODULATION_LORA) = (modulation = Gen.SX127x_MODULATION_LORA)) →
+    (¬ (CrossesModems h modulation ∨ StartsFskRx h opmod modulation) →
         h' = { h with activeModem := modulation, opmod := opmod }) ∧
     h'.implicitHeader = h.implicitHeader ∧ h'.rxCb = h.rxCb ∧ h'.txCb = h.txCb ∧ h'.cadCb = h.cadCb ∧
     h'.packet = h.packet ∧ h'.format = h.format ∧ h'.crcType = h.crcType ∧ h'.freqs = h.freqs ∧
     h'.freqLen = h.freqLen ∧ h'.curFreq = h.curFreq := by
-  unfold setActiveModem
-  by_cases hc : (h.activeModem = Gen.SX127x_MODULATION_LORA) ≠ (modulation = Gen.SX127x_MODULATION_LORA)
-  · rw [if_pos hc]
-    exact ⟨rfl, rfl, fun _ => ⟨rfl, rfl, rfl⟩, fun e => absurd e hc, rfl, rfl, rfl, rfl, rfl, rfl, rfl, rfl, rfl, rfl⟩
-  · rw [if_neg hc]
-    exact ⟨rfl, rfl, fun e => absurd e hc, fun _ => rfl, rfl, rfl, rfl, rfl, rfl, rfl, rfl, rfl, rfl, rfl⟩
+  intro h'
+  by_cases hx : CrossesModems h modulation ∨ StartsFskRx h opmod modulation
+  · have e : h' = { resetState h with activeModem := modulation, opmod := opmod } := setActiveModem_reset opmod modulation h hx
+    rw [e]
+    exact ⟨rfl, rfl, fun _ => ⟨rfl, rfl, rfl⟩, fun n => absurd hx n, rfl, rfl, rfl, rfl, rfl, rfl, rfl, rfl, rfl, rfl⟩
+  · have e : h' = { h with activeModem := modulation, opmod := opmod } := setActiveModem_keep opmod modulation h hx
+    rw [e]
+    exact ⟨rfl, rfl, fun y => absurd y hx, fun _ => rfl, rfl, rfl, rfl, rfl, rfl, rfl, rfl, rfl, rfl, rfl⟩
 
 /-- **C15, the handle after a successful mode change**, for every mode, modulation, handle and
     every answer of chip and bus (no assumption on the chip at all): whenever `sx127x_set_opmod`
@@ -192,13 +227,14 @@ theorem C15_handle_on_success (opmod modulation : Nat) (h : Handle) :
   repeat' split
   all_goals simp
 
-/-- **Switching modems starts from a clean packet state** (the hypothesis `expected = 0` of the
-    C05 theorems and `expected = 0 ∧ received = 0` of C03's `rx_start` and C04's `tx_queue`): a
-    successful mode change from FSK/OOK into LoRa, or from LoRa into FSK/OOK, leaves no expected
-    length and no byte count behind — whatever an abandoned transmission, a half-received packet
-    or a configured implicit-header length had left in the handle, and whatever the chip answers. -/
+/-- **Switching modems, and starting the FSK/OOK receiver, start from a clean packet state** (the
+    hypothesis `expected = 0` of the C05 theorems and `expected = 0 ∧ received = 0` of C03's
+    `rx_start`): a successful mode change from FSK/OOK into LoRa or from LoRa into FSK/OOK, and a
+    successful start of the FSK/OOK receiver from any other mode, leave no expected length and no
+    byte count behind — whatever an abandoned transmission, a half-received packet or a configured
+    implicit-header length had left in the handle, and whatever the chip answers. -/
 theorem C15_modem_switch_forgets_packet (opmod modulation : Nat) (h : Handle)
-    (hx : (h.activeModem = Gen.SX127x_MODULATION_LORA) ≠ (modulation = Gen.SX127x_MODULATION_LORA)) :
+    (hx : CrossesModems h modulation ∨ StartsFskRx h opmod modulation) :
     (setOpmod opmod modulation h).fwp false
       (fun _ rh => rh.1 = .ok () → rh.2.expected = 0 ∧ rh.2.received = 0 ∧ rh.2.activeModem = modulation) := by
   refine Prog.fwp_mono _ _ _ _ ?_ (C15_handle_on_success opmod modulation h)
@@ -207,8 +243,12 @@ theorem C15_modem_switch_forgets_packet (opmod modulation : Nat) (h : Handle)
   have := C15_handle_after opmod modulation h
   exact ⟨(this.2.2.1 hx).2.1, (this.2.2.1 hx).2.2, this.1⟩
 
-/-- non-vacuity: a handle in FSK with a 101-byte frame half sent enters LoRa sleep -/
+/-- non-vacuity: a handle in FSK with a 101-byte frame half sent enters LoRa sleep; a handle in FSK
+    standby with a half-received packet starts the receiver; a mode change that does neither keeps
+    the frame that was queued for transmission -/
 example : (setActiveModem 0 0x80 { activeModem := 0, expected := 101, received := 64 }).expected = 0 := by decide
+example : (setActiveModem 5 0 { activeModem := 0, opmod := 1, expected := 120, received := 30 }).received = 0 := by decide
+example : (setActiveModem 3 0 { activeModem := 0, opmod := 1, expected := 101, received := 64 }).expected = 101 := by decide
 
 section failure
 open DM
